@@ -9,6 +9,9 @@ G1:      TLC enumerates (BFS of Gen_ValDoc.tla, one run over several pool config
          budgets over name pools that contain undefined fields / types / arguments / directives / fragments /
          variables, wrong argument values, non-input variable types ... so valid and invalid documents arise side by side.
 G2:      seeded random valid documents (lib/valgen.py) and rule-targeted mutations of them.
+G4:      seeded documents of 2-6 operations that enter one chain of 1-4 fragments at different links; the chain uses a variable
+         that some operations define and others do not (5.8.3 per operation, through transitively spread fragments), plus
+         the two-operation documents of the TLC configuration "opvars".
 harness: c09 executes every case with ValidationMode::Strict on the derive-built schema and on the dynamic schema
          built from schemas/valid.json (both compared with the JSON through introspection at start-up); a recording
          extension reports the parse / validation hook results, resolvers count their calls.
@@ -120,6 +123,8 @@ def body(c):
     for label in sorted(g1):
         docs = g1[label]
         g1_total += len(docs)
+        if label == "opvars":            # assembled with the G4 family below (own random stream: the older case streams stay as they were)
+            continue
         lcap = (300 if c.quick else cap * 3) if label in ("fragdag", "mergeargs") else cap
         if len(docs) > lcap:
             docs = random.Random(c.seed * 7 + len(label)).sample(docs, lcap)
@@ -182,6 +187,39 @@ def body(c):
             for mname, doc in variants:
                 name, supplied = valgen.supply(rts, doc, r3)
                 cases.append({"id": 0, "src": "G3:" + mname, "flavour": "dynamic", "doc": doc, "opName": name, "vars": supplied, "ts": rts})
+    n_g3 = len(cases) - n_g1 - n_g2
+    # ---- G4: several operations over shared fragments that use a variable (NoUndefinedVariables is a per-operation rule through
+    # transitively spread fragments).  The implementation walks its per-operation table in hash order, so a defect there shows
+    # on a document only for some orders: many documents (names, counts, chain lengths differ), each run once per flavour ----
+    r4 = random.Random(c.seed * 31 + 4)
+    docs = g1["opvars"]
+
+    def shared(s):                       # >= 2 operations with different names and a fragment: the documents this configuration is for
+        d = valgen.tree_from_sections(json.loads(s))
+        return len(d["ops"]) >= 2 and len({o["name"] for o in d["ops"]}) == len(d["ops"]) and bool(d["frags"])
+    hot = [s for s in docs if shared(s)]
+    rest = [s for s in docs if not shared(s)]
+    cap_hot, cap_rest = (260, 40) if c.quick else (6000, 1500)
+    if len(hot) > cap_hot or len(rest) > cap_rest:
+        exhaustive = False
+    hot = sorted(r4.sample(hot, min(len(hot), cap_hot)))
+    rest = sorted(r4.sample(rest, min(len(rest), cap_rest)))
+    if len(hot) < 50:
+        raise vlib.ToolError("vacuous: configuration opvars produced only %d documents with several operations and a fragment" % len(hot))
+    for i, s in enumerate(hot + rest):
+        doc = valgen.tree_from_sections(json.loads(s))
+        oi = r4.randrange(len(doc["ops"]))
+        name, supplied = valgen.supply(ts, doc, r4, oi)
+        cases.append({"id": 0, "src": "G1:opvars", "flavour": ("static", "dynamic")[i % 2], "doc": doc, "opName": name, "vars": supplied})
+    n_g4 = 90 if c.quick else 3000
+    g4_kinds = {}
+    for b in range(n_g4):
+        kind_, doc, oi = valgen.shared_var_doc(ts, r4)
+        g4_kinds[kind_] = g4_kinds.get(kind_, 0) + 1
+        name, supplied = valgen.supply(ts, doc, r4, oi)
+        for fl in (("static", "dynamic") if b % 3 == 0 else (("static",) if b % 3 == 1 else ("dynamic",))):
+            cases.append({"id": 0, "src": "G4:" + kind_, "flavour": fl, "doc": doc, "opName": name, "vars": supplied})
+    n_g4cases = len(cases) - n_g1 - n_g2 - n_g3
     for i, x in enumerate(cases):
         x["id"] = i + 1
     vlib.write_ndjson(c.path("cases.ndjson"), cases)
@@ -222,6 +260,14 @@ def body(c):
         raise vlib.ToolError("vacuous: no generated document violates " + ", ".join(missing))
     if stats["valid"] < 50:
         raise vlib.ToolError("vacuous: only %d valid documents" % stats["valid"])
+    # the shared-fragment family must contain documents whose only violated clause is NoUndefinedVariables (some operation lacks
+    # the definition, another has it) next to valid ones
+    g4_only = sum(1 for o in obs if o["src"].startswith(("G4:one-bad", "G4:some-bad", "G1:opvars")) and verdicts[o["id"]][1] == ["NoUndefinedVariables"] and len(o["doc"]["ops"]) >= 2
+                  and any(op["vars"] for op in o["doc"]["ops"]))
+    g4_valid = sum(1 for o in obs if o["src"].startswith(("G4:", "G1:opvars")) and not verdicts[o["id"]][1])
+    if g4_only < 60 or g4_valid < 10:
+        raise vlib.ToolError("vacuous: shared-fragment family has %d documents invalid only by NoUndefinedVariables, %d valid" % (g4_only, g4_valid))
+    stats["shared_fragment_family"] = {"invalid_only_by_NoUndefinedVariables": g4_only, "valid": g4_valid, "kinds": g4_kinds}
     c.cov["traces_validated_against_impl"] = len(obs)
     c.cov["exhaustive"] = exhaustive
     c.cov["stats"] = stats
@@ -232,9 +278,11 @@ def body(c):
                      "non-composite / non-overlapping type conditions, wrong-kind values, non-input and unknown variable types, unknown / misplaced / repeated directives, "
                      "several operations and fragment definitions); G2: %d seeded random valid documents x rule-targeted mutations (%d kinds, round-robin + random, some second-order); "
                      "variables get valid values of their declared type or are left out; static and dynamic flavour; G3: %d seeded random type systems (objects, interfaces incl. interface inheritance, unions, enum, custom scalar, "
-                     "input objects, arguments with defaults; dynamic flavour, each compared with its live registry) with random documents and mutations; %d G1 + %d G2 + %d G3 cases; "
+                     "input objects, arguments with defaults; dynamic flavour, each compared with its live registry) with random documents and mutations; "
+                     "G4: %d seeded documents of 2-6 operations entering one chain of 1-4 fragments that uses a variable some operations define and others do not "
+                     "(plus the two-operation documents of G1 configuration opvars); %d G1 + %d G2 + %d G3 + %d G4 cases; "
                      "distinct by (text, variables, flavour); every case exercises the property (valid => accepted, invalid => rejected before execution)"
-                     % (len(confs), g1_total, "" if exhaustive else ", seeded sample of %d per configuration" % cap, nbase, len(names), n_ts, n_g1, n_g2, len(cases) - n_g1 - n_g2))
+                     % (len(confs), g1_total, "" if exhaustive else ", seeded sample of %d per configuration" % cap, nbase, len(names), n_ts, n_g4, n_g1, n_g2, n_g3, n_g4cases))
     shown = set()
     for o in obs:
         vd = verdicts[o["id"]][0]
